@@ -226,6 +226,9 @@ def run(tier):
     total, disc, residual = panics.review(rep, "panic-review", F, fns, table, short)
     rep.extra["panic_sites"] = {"total": total, "mechanically_discharged": disc, "reviewed": sum(len(v) for v in residual.values())}
     rep.floor("panic-capable sites inventoried in encoding.rs", total, 6)
+    # a text that starts with a byte order mark: the decoder strips it from bytes; the scanner must not take it for content either
+    from . import plainword
+    rep.floor("stream-start cases", plainword.bom_not_content(rep, F), 4)
     # offsets into the whole input are taken from the running total: the decoder is fed `&input[total..]` and reports how much of *that*
     # it read, so an offset built from the per-call count alone points at the wrong bytes from the second call on (the callback trap and
     # the error message quote those bytes)
